@@ -59,3 +59,9 @@ func (c *MConnection) VerifC20RecvingLen(chID byte) int {
 	}
 	return len(channel.recving)
 }
+
+// VerifC20FireFlushThrottle delivers to the send routine the event its flush throttle timer delivers
+// (a value on flushTimer.Ch), blocking until the send routine takes it. Meant for a STARTED MConnection
+// whose configured FlushThrottle is so long that the real timer never fires: the checker then owns the
+// moment of the throttled flush.
+func (c *MConnection) VerifC20FireFlushThrottle() { c.flushTimer.Ch <- struct{}{} }
